@@ -65,7 +65,7 @@ def run(ctx):
     kinds = list(trials.KINDS)
     for kind, norb, ne in wf.cases(rng, kinds, ctx.tier):
         try:
-            trial, wd, desc = trials.make(kind, rng, norb, ne, **wf.make_opts(kind))
+            trial, wd, desc = trials.make(kind, rng, norb, ne, **wf.make_opts(kind, rng))
             sec, psi = trials.state(kind, trial, wd, desc)
         except Exception as ex:
             spec_fail.append((kind, "trial can be constructed", {"norb": norb, "nelec": ne, "error": repr(ex)[:300]}))
@@ -178,7 +178,7 @@ def rdm_trial(kind, rng, norb, ne):
     """trial with orthonormal orbitals (the density-matrix statement needs them)"""
     import jax.numpy as jnp
     import trials
-    trial, wd, desc = trials.make(kind, rng, norb, ne, **wf.make_opts(kind))
+    trial, wd, desc = trials.make(kind, rng, norb, ne, **wf.make_opts(kind, rng))
     if kind == "rhf":
         c = systems.orthonormal(rng, norb, ne[0])
         wd["mo_coeff"] = jnp.array(c)
